@@ -11,6 +11,7 @@ type OBU struct {
 	HasExt  bool
 	TID     uint8 // 0..7
 	SID     uint8 // 0..3
+	Res     uint8 // bit 0: obu_reserved_1bit, bits 1-3: extension_header_reserved_3bits
 	Payload []byte
 }
 
@@ -41,10 +42,10 @@ func ReadLeb(b []byte) (v uint64, n int) {
 
 // Header returns the OBU header octets with the given has_size flag.
 func (o *OBU) Header(hasSize bool) []byte {
-	h := []byte{o.Type << 3}
+	h := []byte{o.Type<<3 | o.Res&1}
 	if o.HasExt {
 		h[0] |= 0x04
-		h = append(h, o.TID<<5|o.SID<<3)
+		h = append(h, o.TID<<5|o.SID<<3|o.Res>>1&7)
 	}
 	if hasSize {
 		h[0] |= 0x02
